@@ -53,10 +53,8 @@ theorem tlsCertificateStatus :
       (fun x => x.1 ∈ Gen.TlsCertificateStatusType.memberCodes ∧ x.2.length + 4 < 256 ^ 3) :=
   certificateStatus_roundTrip
 
-/-- The full statement for the hello messages (vectors, SCSV folding, extension lists) is kept
-visible; it is tied to the code by the correspondence check, its proof is not completed. -/
-def clientHello_roundTrip_full : Prop :=
-  ∃ wf : ClientHello → Prop, (∃ h, wf h) ∧ RoundTrip clientHelloCodec wf
+-- The hello messages (vectors, SCSV folding, extension lists), the certificate chain and the
+-- extension classes are in `CpProps/C01Hello.lean` (`clientHello_roundTrip`, `serverHello_roundTrip`, …).
 
 /-! non-vacuity: a concrete record satisfies the hypothesis and round-trips -/
 example : recordCodec.parse ([22, 3, 3, 0, 3, 1, 2, 3] ++ [9, 9]) = .ok (⟨22, 4, [1, 2, 3]⟩, 8) := by
